@@ -271,7 +271,11 @@ class RuleRunner:
                 args.append(build_operator(c[1], sub, f"A{i}", dims=dims))
                 first_op = False
             elif c[0] == "alg":
-                args.append(make_alg(c[1]))
+                from cola.linalg.algorithm_base import Algorithm as _Alg
+                if cfg.get("alg_cls") is not None and c[1] is _Alg:
+                    args.append(cfg["alg_cls"]())        # a named admissible algorithm class for a parameter typed `Algorithm`
+                else:
+                    args.append(make_alg(c[1]))
             elif c[0] == "int":
                 v = cfg.get("k", "sym")
                 if v == "sym":
